@@ -139,4 +139,49 @@ def ratioOk (tol : Rat) (w : String) (fields : List String) (t out : List Cell) 
          let den := sumAt g w i
          den == 0 || closeTo tol ((o.getV f).at i * den) num)
 
+/-! ## the PLAIN readings of three clauses (audit follow-up)
+
+None of the three predicates below is evaluated by the driver: each is FALSE on an output of the model (and of
+the implementation) — see the witness theorems `premium_first_cell_lacks_field_none`,
+`ratio_denominator_counts_valueless_weights`, `shared_none_detail_dropped` of `Properties/C09.lean`, which
+state the accepting predicate above and the plain one below side by side. They are the exact strengthenings
+that would turn the three quirks into reported deviations. -/
+
+/-- PLAIN reading of "take one existing cell's value": some cell of the group HOLDS the field with that
+value (`nonLossOk` lets a cell WITHOUT the field stand for the value `None`) -/
+def nonLossOkStrict (nonLoss : List String) (t out : List Cell) : Bool :=
+  let incr := smIsIncremental t
+  out.all fun o =>
+    let g := groupOf incr t o
+    nonLoss.all fun f =>
+      !(g.any fun c => c.values.contains f) ||
+      (match o.values.get? f with
+       | some v => g.any fun c => c.values.get? f == some v
+       | none => false)
+
+/-- PLAIN reading of "weighted average": numerator AND denominator run over the cells of the group that have a
+value (`ratioOk` takes the weights of ALL cells into the denominator) -/
+def ratioOkPlain (tol : Rat) (w : String) (fields : List String) (t out : List Cell) : Bool :=
+  let incr := smIsIncremental t
+  out.all fun o =>
+    let g := groupOf incr t o
+    fields.all fun f =>
+      let gv := g.filter fun c => !(c.getV f).isNone
+      gv.isEmpty ||
+      !(gv.all fun c => !(c.getV w).isNone) ||
+      (probeIdx (o :: g) f).all fun i =>
+        !(allInRange g f i && allInRange g w i && (o.getV f).inRange i) ||
+        (let num := (gv.map fun c => (c.getV f).at i * (c.getV w).at i).sum
+         let den := sumAt gv w i
+         den == 0 || closeTo tol ((o.getV f).at i * den) num)
+
+/-- PLAIN reading of "keeps exactly those detail entries that every input cell shares": no exception for an
+entry whose shared value is `None` (`entryShared` demands `kv.2 != none`) -/
+def entrySharedPlain (ds : List (Dict MVal)) (kv : String × MVal) : Bool :=
+  ds.all fun d => d.get? kv.1 == some kv.2
+
+def detailsSharedPlain (ds : List (Dict MVal)) (m : Dict MVal) : Bool :=
+  nodupB m.keys && m.all (entrySharedPlain ds) &&
+  ds.all fun d => d.all fun kv => !entrySharedPlain ds kv || m.get? kv.1 == some kv.2
+
 end Bermuda.Spec.C09
